@@ -8,7 +8,7 @@ class Finding:
         self.kv, self.raw = kv, raw
         self.prop = kv.get('property')
     def matches_check(self, prop, unit, label, check_id):
-        if self.prop != prop or 'unit' not in self.kv: return False
+        if (self.prop != prop and prop != 'C13') or 'unit' not in self.kv: return False   # C13 (equivalence roll-up) inherits every finding
         if not fnmatch.fnmatch(unit, self.kv['unit']): return False
         ob = self.kv.get('ob', '')
         return ob == (label or '') or ob == check_id or (label and ob == label.split('.', 1)[-1])
